@@ -36,6 +36,28 @@ def parseHolders (s : String) : Option (List (String × Int)) :=
     | [p, e] => e.toInt?.map fun v => (p, v)
     | _ => none
 
+/-- parse a table dump `c=[p:e,..]|c=[..]` (or `-`) -/
+def parseDump (s : String) : Option (List (String × List (String × Int))) :=
+  if s == "-" then some [] else
+  (s.splitOn "|").mapM fun item =>
+    match item.splitOn "=[" with
+    | [c, rest] => (parseHolders ((rest.dropEnd 1).toString)).map fun hs => (c, hs)
+    | _ => none
+
+/-- the property's sweep clause judged on the implementation's dump after a sweep: every
+    announcement the abstract directory holds live must still be there -/
+def sweepVerdict (st : St) (impl : Option String) : String :=
+  match impl with
+  | none => "ok"
+  | some line =>
+    match parseDump line with
+    | none => "viol:sweep-format"
+    | some dump =>
+      let missing := st.keys.eraseDups.flatMap fun c =>
+        let have_ := (dump.lookup c).getD []
+        ((C06Spec.find st.spec st.now c).filter fun a => !have_.contains (a.peer, a.exp)).map fun a => s!"{c}/{a.peer}"
+      if missing.isEmpty then "ok" else s!"viol:sweep-early:live provider removed {missing}"
+
 def step (st : St) (tok : List String) (_line : String) (impl : Option String) : St × String × String :=
   match tok with
   | ["adv", n] =>
@@ -62,7 +84,7 @@ def step (st : St) (tok : List String) (_line : String) (impl : Option String) :
     ({ st with table := t' }, fmtModelHolders hs, verdict)
   | ["sweep"] =>
     let t' := Providers.sweep st.table st.now
-    ({ st with table := t' }, fmtTable st.keys t', "ok")
+    ({ st with table := t' }, fmtTable st.keys t', sweepVerdict st impl)
   | ["withdraw", c, p] =>
     let t' := Providers.withdraw st.table c p
     ({ st with table := t', spec := C06Spec.withdraw st.spec c p }, fmtModelHolders (holdersOf t' c), "ok")
